@@ -274,6 +274,11 @@ def loop_progress(fb, head, monotone_callees=()):
                     if unparse(strip_casts(a)) == f"__addr__({v})":
                         ev.add(n)
         if ev and _cycle_free_without(c, head, body, ev):
+            # ... and nothing else in the loop writes the variable (a plain reassignment could undo the progress)
+            other = [n for n in body if n.kind == "store" and unparse(n.ast) == v and n not in ev]
+            if other:
+                return False, (f"`{v}` is also reassigned at line {other[0].lineno} (`{unparse(other[0].stmt)[:60]}`) by an amount that is not proven positive: "
+                               "with a hostile length the cursor stays or moves back and the loop never ends")
             return True, f"`{v}` moves by at least 1 in the same direction on every iteration"
     return False, f"no variable of `{unparse(test)}` provably moves on every iteration"
 
